@@ -14,6 +14,10 @@ PROPS = {
     "C02": {"level": "model_checking", "engines": [LINOP, ("index_maps", "index_maps", "run")], "rule": LINOP_RULE, "assumptions": LINOP_ASSUME, "trusted": TLC_BASE},
     "C03": {"level": "model_checking", "engines": [LINOP], "rule": LINOP_RULE, "assumptions": LINOP_ASSUME, "trusted": TLC_BASE},
     "C04": {"level": "model_checking", "engines": [LINOP], "rule": LINOP_RULE, "assumptions": LINOP_ASSUME, "trusted": TLC_BASE},
+    "C15": {"level": "model_checking", "engines": [("alg_protocol", "alg_protocol", "run")],
+            "rule": "one case per Alg object observed through the trace hooks (driven along TLC-generated call sequences, inner solvers, and the repository's own tests) validated by TLC against AlgLoopTrace.tla; non-trivial = the object performed at least two updates",
+            "assumptions": ["protocol model checked for max_iter 0..3 (quick) / 0..4 (thorough) with up to max_iter+2 hand-driven updates", "early-stop probe compares solution arrays bitwise after one further update"],
+            "trusted": TLC_BASE + ["tla2tools Json module", "trace hooks in sigpy/_verif.py"]},
     "C09": {
         "level": "model_checking",
         "engines": [("index_maps", "index_maps", "run")],
@@ -25,9 +29,11 @@ PROPS = {
     },
 }
 
-HOOK_COMMITS = []
+HOOK_COMMITS = ["609775d"]
 
 ENGINES = [
+    {"name": "alg_protocol", "path": "harness/engines/alg_protocol.py + harness/drivers/alg_driver.py + spec/AlgLoop.tla, spec/AlgLoopTrace.tla", "serves_properties": ["C15", "C02"],
+     "kind_free_text": "TLC model checking of the iteration protocol; graph walks drive real Alg/App objects with hooks; batch trace validation of driver and test-suite executions"},
     {"name": "linop_algebra", "path": "harness/engines/linop.py + spec/LinopAlgebra.tla (CMat, ElementMaps, Shape)", "serves_properties": ["C01", "C02", "C03", "C04"],
      "kind_free_text": "TLC exhaustive over sessions with the linop API (themes atoms/algebra/stack) + S->C replay of every distinct entry and rejected call"},
     {"name": "index_maps", "path": "harness/engines/index_maps.py + spec/IndexMaps.tla", "serves_properties": ["C09", "C02"],
@@ -38,6 +44,10 @@ _LINOP_NOTE = ("Trusted: TLC, the dump parser, the harness builder (spec api tre
                "Exact tier covers the index/broadcast/matmul/blocks/stack classes over Z[i]; FFT, NUFFT, Wavelet, Interpolate, Convolve and the MRI factories are "
                "bound by their own engines (see C05-C10, C16) and join the algebra in the opaque tier when built. GPU/MPI paths not run.")
 MANIFEST_TEXT = {
+    "C15": {"text": "AlgLoop.tla (protocol of Alg.update/done and App.run) is model-checked by TLC (budget, counter, purity of done(), liveness of the canonical loop); behaviours of its state graph drive every Alg subclass and App with the trace hooks on; every Alg object observed - driven ones, inner solvers, and all objects created by the repository's tests - is validated by TLC against AlgLoopTrace.tla, including the harness's early-stop probe (tol=0, done() before the budget => one more update must leave the solution arrays bitwise unchanged, or a breakdown flag is set).",
+            "design_ref": "DESIGN.md section 5 C15",
+            "note": "Trusted: TLC, Json module, the hooks (sigpy/_verif.py), the driver's problem factories. Early-stop probe covers algorithms driven by the harness (all Alg subclasses, LinearLeastSquares per solver, L2ConstrainedMinimization, MaxEig). PowerMethod eigenvalue monotonicity: see power_method engine when listed.",
+            "technique": "TLA+ protocol spec + TLC (safety and liveness) + trace validation of hooked executions (driver and repository tests)"},
     "C01": {"text": "TLC checks AdjShapes/AdjCorrect/AdjInvolution for every operator expression reachable in LinopAlgebra.tla (mechanism AdjRule transcribed from each _adjoint_linop against exact matrices over Z[i]); every dumped entry is rebuilt on the real classes and dense(A.H) is compared with dense(A)^H, A.H.H with A, shapes swapped.",
             "design_ref": "DESIGN.md sections 4, 5 C01", "note": _LINOP_NOTE,
             "technique": "TLA+ operator-algebra spec, TLC exhaustive over themed catalogues + spec-to-code replay (dense matrix probing)"},
@@ -59,4 +69,4 @@ MANIFEST_TEXT = {
 }
 
 NOT_APPLICABLE = {p: "check not built yet in this round (planned, see DESIGN.md section 5)" for p in
-                  ["C05", "C06", "C07", "C08", "C10", "C11", "C12", "C13", "C14", "C15", "C16", "C17", "C18", "C19", "C20"]}
+                  ["C05", "C06", "C07", "C08", "C10", "C11", "C12", "C13", "C14", "C16", "C17", "C18", "C19", "C20"]}
